@@ -8,6 +8,7 @@ import (
 	"flag"
 	"fmt"
 	"os"
+	"sync"
 
 	"verifharness/gbdriver"
 )
@@ -21,6 +22,7 @@ func groupbalMain(args []string) int {
 	inPath := fs.String("in", "", "ndjson file of inputs")
 	outPath := fs.String("out", "", "ndjson file of (input, output) lines")
 	reps := fs.Int("reps", 8, "calls per RackAffinity input")
+	par := fs.Int("par", 16, "groups formed side by side on the leader path")
 	fs.Parse(args)
 	f, err := os.Open(*inPath)
 	if err != nil {
@@ -38,6 +40,7 @@ func groupbalMain(args []string) int {
 	sc := bufio.NewScanner(f)
 	sc.Buffer(make([]byte, 1<<20), 1<<26)
 	inputs, lines, calls := 0, 0, 0
+	var leaderIns []gbdriver.Input
 	for sc.Scan() {
 		if len(sc.Bytes()) == 0 {
 			continue
@@ -46,6 +49,10 @@ func groupbalMain(args []string) int {
 		if err := json.Unmarshal(sc.Bytes(), &in); err != nil {
 			fmt.Fprintln(os.Stderr, "bad input:", err)
 			return 2
+		}
+		if in.Leader != "" {
+			leaderIns = append(leaderIns, in)
+			continue
 		}
 		ls, err := gbdriver.Execute(in, *reps)
 		if err != nil {
@@ -65,6 +72,36 @@ func groupbalMain(args []string) int {
 	if err := sc.Err(); err != nil {
 		fmt.Fprintln(os.Stderr, err)
 		return 2
+	}
+	// leader path: real ConsumerGroups against a fake cluster, several groups side by side
+	if len(leaderIns) > 0 {
+		out := make([]gbdriver.Line, len(leaderIns))
+		errs := make([]error, len(leaderIns))
+		sem := make(chan struct{}, *par)
+		var wg sync.WaitGroup
+		for i := range leaderIns {
+			wg.Add(1)
+			sem <- struct{}{}
+			go func(i int) {
+				defer wg.Done()
+				defer func() { <-sem }()
+				out[i], errs[i] = gbdriver.ExecuteLeader(leaderIns[i])
+			}(i)
+		}
+		wg.Wait()
+		for i := range out {
+			if errs[i] != nil {
+				fmt.Fprintln(os.Stderr, errs[i])
+				return 2
+			}
+			inputs++
+			calls++
+			if err := enc.Encode(out[i]); err != nil {
+				fmt.Fprintln(os.Stderr, err)
+				return 2
+			}
+			lines++
+		}
 	}
 	if err := w.Flush(); err != nil {
 		fmt.Fprintln(os.Stderr, err)
